@@ -411,7 +411,9 @@ def cases(tier):
             for ents in ent_sets:
                 if uses_e != bool(ents):
                     continue
-                if sum(int(k[1]) if k[0] == "T" else 1 for k in combo) > (4 if tier == "quick" else 5):
+                # symbolic characters in the value and in the entity texts it can reach: every one doubles the paths twice
+                ent_chars = sum(int(k[1]) for v in ents.values() for k in v if k[0] == "T")
+                if sum(int(k[1]) if k[0] == "T" else 1 for k in combo) + ent_chars > (4 if tier == "quick" else 6):
                     continue
                 for decl in ("none", "cdata", "tokenized"):
                     out.append((combo, ents, decl))
